@@ -137,10 +137,24 @@ class B1(BaseException):
     pass
 
 
+class FalsyError(Exception):
+    """An exception object that is falsy (an aggregate error with an empty list of sub-errors)."""
+
+    def __len__(self):
+        return 0
+
+
+class FalsyBase(BaseException):
+    def __bool__(self):
+        return False
+
+
 EXC_TYPES = {
     "E1": E1,
     "E2": E2,
     "B1": B1,
+    "F1": FalsyError,
+    "F2": FalsyBase,
     "SystemExit": SystemExit,
     "KeyboardInterrupt": KeyboardInterrupt,
     "OSError": OSError,
